@@ -20,7 +20,8 @@ def _call(job):
     try:
         if fn == "gac":
             cap = max(tol) if tol else 0.0
-            out = f(tuple(text), tuple(bg), large, target, min(target, 3.0 if large else 4.5), list(tol))
+            # (the schedule as a list or - the same numbers - as a tuple)
+            out = f(tuple(text), tuple(bg), large, target, min(target, 3.0 if large else 4.5), list(tol) if (text[0] + bg[1]) % 3 else tuple(tol))
         else:
             cap = tol
             out = f(tuple(text), tuple(bg), tol, target, large, **extra_kw)
